@@ -782,13 +782,21 @@ def dbg_name(f, local):
     return nm.get(local)
 
 
+_DESC = {"canon": False, "F": None, "cdepth": 0}
+
+
 def describe_place(f, p):
-    """Stable textual description of a root place: 'arg:name.field...' / 'local:name' ."""
+    """Stable textual description of a root place: 'arg:name.field...' / 'local:name' .
+    In canonical mode (site_guard) names of locals are not used and arguments are positional, so renaming
+    a local or a parameter does not change the description."""
     l = p[0]
     name = dbg_name(f, l)
     if 0 < l <= f["argc"]:
-        base = "arg:%s" % (name or ("#%d" % l))
-    elif name:
+        if _DESC["canon"] and name != "self":
+            base = "arg:p%d" % l
+        else:
+            base = "arg:%s" % (name or ("#%d" % l))
+    elif name and not _DESC["canon"]:
         base = "var:%s" % name
     else:
         base = "tmp"
@@ -829,6 +837,8 @@ def kdesc(f, k):
         return "const:%s" % k["v"]
     if "fn" in k:
         return "fn:%s" % callee_name(k["fn"])
+    if "closure" in k and _DESC["canon"]:
+        return "closure{" + " ".join(closure_tokens(k["closure"])) + "}"
     return "const<%s>" % k["t"]
 
 
@@ -853,6 +863,10 @@ def describe(f, o, depth=10, through=TRANSPARENT):
     p = o[1]
     r = root_of(f, p[0], depth, through)
     if isinstance(r, list):
+        if _DESC["canon"] and r[0] > f["argc"] and depth > 6:
+            alt = _describe_defs(f, r, depth, through)
+            if alt:
+                return alt + describe_place(f, r + p[1:])[3:]
         return describe_place(f, r + p[1:])
     if r[0] == "const":
         return kdesc(f, r[1])
@@ -875,11 +889,13 @@ def describe(f, o, depth=10, through=TRANSPARENT):
             return rv[1]
         if rv[0] == "agg":
             head = "agg:%s%s" % (rv[1].rsplit("::", 1)[-1], ("::" + rv[2]) if rv[2] else "")
+            if _DESC["canon"] and rv[1].startswith("closure:"):
+                head += "{" + " ".join(closure_tokens(rv[1][len("closure:"):])) + "}"
             if rv[3] and depth > 3:
                 return head + "(" + ",".join(describe(f, x, depth - 3, through) for x in rv[3]) + ")"
             return head
         if rv[0] == "disc":
-            if dbg_name(f, rv[1][0]) or depth <= 3:
+            if (dbg_name(f, rv[1][0]) and not _DESC["canon"]) or depth <= 3:
                 inner = describe_place(f, rv[1])
             else:
                 inner = describe(f, ["c", rv[1]], depth - 3, through)
@@ -888,6 +904,35 @@ def describe(f, o, depth=10, through=TRANSPARENT):
             return "disc(%s)" % inner
         return rv[0]
     return "?"
+
+
+def _describe_defs(f, place, depth, through):
+    """Canonical mode: a local with several definitions (pattern binding of several match arms, a `mut` accumulator)
+    is described by the alternatives of what is assigned to it instead of by its name."""
+    l = place[0]
+    stack = _DESC.setdefault("stack", [])
+    if (id(f), l) in stack or len(stack) > 3:
+        return ""
+    stack.append((id(f), l))
+    try:
+        alts = []
+        for d in defs_of_local(f).get(l, [])[:6]:
+            if d[0] == "assign":
+                rv = d[3]
+                if rv[0] in ("use", "cast"):
+                    alts.append(describe(f, rv[1] if rv[0] == "use" else rv[2], depth - 4, through))
+                elif rv[0] in ("ref", "raw"):
+                    alts.append(describe(f, ["cp", rv[2]], depth - 4, through))
+                elif rv[0] == "bin":
+                    alts.append("%s(%s,%s)" % (rv[1], describe(f, rv[2], depth - 4, through), describe(f, rv[3], depth - 4, through)))
+                elif rv[0] == "agg":
+                    alts.append("agg:%s%s" % (rv[1].rsplit("::", 1)[-1], ("::" + rv[2]) if rv[2] else ""))
+            elif d[0] == "call":
+                alts.append("call:%s(%s)" % (callee_name(d[2]).rsplit("::", 1)[-1], ",".join(describe(f, a, depth - 4, through) for a in d[3])))
+        alts = sorted(set(a for a in alts if a and a != "tmp"))
+        return ("alt(" + "|".join(alts) + ")") if alts else ""
+    finally:
+        stack.pop()
 
 
 CMP_REGION = {
@@ -1130,6 +1175,30 @@ def leaves(desc):
     return sorted(toks)
 
 
+def _guard_at(f, cfg, d, sides):
+    """Descriptor of the switch terminating block `d`, for the successor set `sides` that leads to the site."""
+    t = f["bbs"][d]["t"]
+    tt = bool_switch_targets(t)
+    if tt:
+        on_true = tt[0] in sides
+        for g in guards(f):
+            if g["bb"] == d:
+                reg = set(CMP_REGION[g["op"]])
+                # g['t'] is the branch taken when (a op b) holds (negation already folded in)
+                side_region = reg if (g["t"] in sides) else ALL_ORD - reg
+                a, b = leaves(describe(f, g["a"], depth=30)), leaves(describe(f, g["b"], depth=30))
+                if a > b:
+                    a, b = b, a
+                    side_region = {FLIP[x] for x in side_region}
+                return {"kind": "cmp", "bb": d, "region": "".join(sorted(side_region)), "a": a, "b": b}
+        desc = describe(f, t[1], depth=30)
+        neg = desc.startswith("Not(")
+        return {"kind": "bool", "bb": d, "when": (not on_true) if neg else on_true, "tokens": leaves(desc)}
+    desc = describe(f, t[1], depth=30)
+    vals = sorted(str(v) for v, tg in t[2] if tg in sides) + (["_"] if t[3] in sides else [])
+    return {"kind": "disc", "bb": d, "values": vals, "tokens": leaves(desc)}
+
+
 def controlling_guard(f, cfg, block):
     """Nearest conditional on which `block` is control dependent, described semantically.
     Returns dict(kind=cmp|bool|disc|none, ...) ; for cmp: region of (a vs b) on the side that
@@ -1139,31 +1208,37 @@ def controlling_guard(f, cfg, block):
     # nearest = the dominator with the largest dominator set
     cands.sort(key=lambda d: len(dom[d]), reverse=True)
     for d in cands:
-        t = f["bbs"][d]["t"]
         succ = cfg.succ[d]
         sides = [s for s in set(succ) if block in cfg.reachable_incl(s)]
         if len(sides) == len(set(succ)):
             continue          # reached from every side: not control dependent on d
-        tt = bool_switch_targets(t)
-        if tt:
-            on_true = tt[0] in sides
-            for g in guards(f):
-                if g["bb"] == d:
-                    reg = set(CMP_REGION[g["op"]])
-                    # g['t'] is the branch taken when (a op b) holds (negation already folded in)
-                    side_region = reg if (g["t"] in sides) else ALL_ORD - reg
-                    a, b = leaves(g["a_desc"]), leaves(g["b_desc"])
-                    if a > b:
-                        a, b = b, a
-                        side_region = {FLIP[x] for x in side_region}
-                    return {"kind": "cmp", "bb": d, "region": "".join(sorted(side_region)), "a": a, "b": b}
-            desc = describe(f, t[1], depth=12)
-            neg = desc.startswith("Not(")
-            return {"kind": "bool", "bb": d, "when": (not on_true) if neg else on_true, "tokens": leaves(desc)}
-        desc = describe(f, t[1], depth=10)
-        vals = sorted(str(v) for v, tg in t[2] if tg in sides) + (["_"] if t[3] in sides else [])
-        return {"kind": "disc", "bb": d, "values": vals, "tokens": leaves(desc)}
+        return _guard_at(f, cfg, d, sides)
     return {"kind": "none"}
+
+
+def controlling_guards(f, cfg, block):
+    """Like controlling_guard, but a block entered from several predecessors that each have their own nearer
+    condition (an or-pattern match arm with an `if` guard lowers to one guard test per alternative) is described by
+    those conditions: [descriptor, ...]. Falls back to the single dominating condition."""
+    g = controlling_guard(f, cfg, block)
+    preds = sorted(set(p for p in cfg.pred[block] if p in cfg.reach))
+    if len(preds) < 2:
+        return [g]
+    dom = cfg.dominators()
+    outer = len(dom[g["bb"]]) if "bb" in g else -1
+    subs = []
+    for p in preds:
+        if block in dom.get(p, ()):        # back edge
+            return [g]
+        t = f["bbs"][p]["t"]
+        if t[0] == "switch" and len(set(cfg.succ[p])) > 1:
+            sp = _guard_at(f, cfg, p, [block])
+        else:
+            sp = controlling_guard(f, cfg, p)
+        if "bb" not in sp or len(dom[sp["bb"]]) <= outer:
+            return [g]
+        subs.append(sp)
+    return subs
 
 
 def bool_consumers(f, call_bb):
@@ -1233,3 +1308,252 @@ def infeasible_continue_blocks(f):
                     if v == 0:
                         out.add(tg)
     return out
+
+
+# ---------------------------------------------------------------- canonical guard descriptors (for reviewed tables)
+# A reviewed table freezes, per construction site, the *condition* under which the site is reached. To survive
+# behaviour-preserving edits the condition is described without names of locals / parameters, without iterator and
+# Option/Result plumbing, through `let` bindings and through closures handed to combinators; and it is compared with
+# guards_match(), which tolerates added identifier tokens and a changed control shape but not a changed relation,
+# polarity, constant or arithmetic operator.
+PLUMBING_TOKENS = {"find", "any", "all", "filter", "filter_map", "map", "count", "position", "iter", "iter_mut", "into_iter", "enumerate", "next",
+                   "is_none", "is_some", "try_for_each", "for_each", "zip", "skip", "take", "rev", "collect", "collect_vec", "flat_map", "fold", "sum",
+                   "last", "first", "get", "get_mut", "then", "then_some", "ok", "and_then", "is_ok", "is_err", "unwrap_or", "reduce", "peekable",
+                   "by_ref", "chain", "ok_or_else", "unwrap_or_else", "map_or", "filter_map_ok", "flatten", "index", "as_slice", "as_mut", "borrow",
+                   "alt", "Break", "Err", "None", "Residual", "from_residual", "T", "E", "A", "I", "F", "U", "B", "K", "V", "closure", "rep", "find_map",
+                   "try_fold", "copied", "cloned", "as_deref", "deref_mut", "as_mut_slice", "to_vec", "to_owned", "borrow_mut", "start", "end"}
+NEGATORS = {"is_none"}
+OP_TOKENS = {"Add", "Sub", "Mul", "Div", "Rem", "Shl", "Shr", "BitAnd", "BitOr", "BitXor", "AddWithOverflow", "SubWithOverflow", "MulWithOverflow",
+             "AddUnchecked", "SubUnchecked", "MulUnchecked", "ShlUnchecked", "ShrUnchecked", "Neg", "Offset"}
+PLUMBING_ADTS = ("option::Option", "result::Result", "ops::control_flow::ControlFlow")
+LAZY_COMBINATORS = {"ok_or_else": "none-of", "map_err": "err-of", "unwrap_or_else": "none-of", "or_else": "none-of"}
+
+
+class canon_mode:
+    """Within this context describe() is name-free and follows closures (needs the Facts to find closure bodies)."""
+
+    def __init__(self, F):
+        self.F = F
+
+    def __enter__(self):
+        self.old = dict(_DESC)
+        _DESC.update(canon=True, F=self.F)
+
+    def __exit__(self, *a):
+        _DESC.update(self.old)
+
+
+def is_op_token(t):
+    return t.startswith("#") or t.startswith("=") or t in OP_TOKENS
+
+
+def _clean(ts):
+    return sorted(set(t for t in ts if t not in PLUMBING_TOKENS))
+
+
+def switch_disc_adt(f, bb):
+    """ADT whose discriminant the switch terminating `bb` tests (None when it is not a discriminant switch)."""
+    t = f["bbs"][bb]["t"]
+    if t[0] != "switch" or t[1][0] == "k":
+        return None
+    r = root_of(f, t[1][1][0])
+    if isinstance(r, tuple) and r[0] == "rvalue" and r[1][0] == "disc" and len(r[1]) > 2:
+        return r[1][2]
+    return None
+
+
+def closure_tokens(name):
+    """Condition tokens of a closure body: operands of its comparisons, described switch operands and the tested
+    discriminant values of non-plumbing enums (`=4`). Used when a guard's condition lives in a closure handed to
+    position / any / find / filter."""
+    F = _DESC["F"]
+    if F is None or _DESC["cdepth"] >= 2:
+        return []
+    cf = F.fn(name)
+    if cf is None:
+        return []
+    _DESC["cdepth"] += 1
+    try:
+        toks = set()
+        gs = {g["bb"]: g for g in guards(cf)}
+        for i, bb in enumerate(cf["bbs"]):
+            if bb.get("cu") or bb["t"][0] != "switch":
+                continue
+            if i in gs:
+                toks |= set(leaves(describe(cf, gs[i]["a"], depth=30))) | set(leaves(describe(cf, gs[i]["b"], depth=30)))
+                toks.add(gs[i]["op"] if gs[i]["op"] in ("Eq", "Ne") else "Ord")
+                continue
+            t = bb["t"]
+            toks |= set(leaves(describe(cf, t[1], depth=30)))
+            adt = switch_disc_adt(cf, i)
+            if adt is not None and not str(adt).endswith(PLUMBING_ADTS):
+                toks |= set("=%s" % v for v, tg in t[2])
+        for i, c, args, dest, tgt, line in calls(cf):
+            toks.add(callee_name(c).rsplit("::", 1)[-1])
+        return _clean(toks)
+    finally:
+        _DESC["cdepth"] -= 1
+
+
+def canon_guard(g, f=None):
+    """Canonical form of a controlling_guard() descriptor (see section comment)."""
+    bb = g.get("bb")
+    g = dict(g)
+    g.pop("bb", None)
+    k = g.get("kind")
+    if k == "cmp":
+        a, b = _clean(g["a"]), _clean(g["b"])
+        region = set(re.findall(r"lt|eq|gt", g["region"]))
+        if a > b:
+            a, b = b, a
+            region = {FLIP[x] for x in region}
+        return {"kind": "cmp", "region": "".join(sorted(region)), "a": a, "b": b}
+    if k == "bool":
+        raw = set(g.get("tokens", []))
+        toks = _clean(raw)
+        when = bool(g.get("when")) ^ bool(raw & NEGATORS)
+        if not toks:
+            return {"kind": "plumbing"}
+        return {"kind": "bool", "when": when, "tokens": toks}
+    if k == "disc":
+        toks = _clean(g.get("tokens", []))
+        adt = str(switch_disc_adt(f, bb)) if (f is not None and bb is not None) else ""
+        vals = g.get("values") or []
+        if adt.endswith("option::Option") and vals in (["0"], ["1"]):
+            return {"kind": "none-of" if vals == ["0"] else "some-of", "tokens": toks}
+        if adt.endswith("result::Result") and vals in (["0"], ["1"]):
+            return {"kind": "err-of" if vals == ["1"] else "ok-of", "tokens": toks}
+        if adt.endswith("ControlFlow") and vals in (["0"], ["1"]):
+            return {"kind": "fail-of" if vals == ["1"] else "pass-of", "tokens": toks}
+        if not toks and (not adt or adt == "None" or adt.endswith(PLUMBING_ADTS)):
+            return {"kind": "plumbing"}
+        return {"kind": "disc", "values": vals, "tokens": toks}
+    if k in ("source", "none-of", "err-of"):
+        return {"kind": k if k != "source" else LAZY_COMBINATORS.get(g.get("via"), "none-of"), "tokens": _clean(g.get("tokens", []))}
+    return {"kind": k}
+
+
+def parent_fn(name):
+    return re.sub(r"(::\{closure#\d+\})+$", "", name)
+
+
+def _closure_use(F, n):
+    """(parent fn record, callee short name, other args) of the call in the parent that receives closure `n`."""
+    m = re.match(r"^(.*)::\{closure#(\d+)\}$", n)
+    if not m:
+        return None
+    pf = F.fn(m.group(1))
+    if pf is None:
+        return None
+    mark = "closure#%s}" % m.group(2)
+    for bi, c, args, dest, tgt, l in calls(pf):
+        hit = []
+        for k, a in enumerate(args):
+            if a[0] == "k":
+                if mark in str(a[1].get("closure", "")) + str(a[1].get("t", "")):
+                    hit.append(k)
+            else:
+                r = root_of(pf, a[1][0])
+                if isinstance(r, tuple) and r[0] == "rvalue" and r[1][0] == "agg" and r[1][1].endswith(mark):
+                    hit.append(k)
+        if hit:
+            return pf, callee_name(c).rsplit("::", 1)[-1], [a for k, a in enumerate(args) if k not in hit], bi
+    return None
+
+
+def site_guard(F, n, f, cfg, block, value_local=None, value_rx=None):
+    """Canonical descriptors ([..], usually one) of the condition under which `block` of function `n` runs.
+      * a site inside a closure handed to ok_or_else / map_err / unwrap_or_else (and unguarded inside it) is described
+        by the Option/Result the combinator is applied to (none-of / err-of);
+      * a value built eagerly as the argument of `ok_or(value)` is described the same way (none-of the receiver);
+      * otherwise the nearest controlling branch; for a site in any other closure the operands of the call that
+        receives the closure are added as context tokens (what the closure iterates over)."""
+    with canon_mode(F):
+        use = _closure_use(F, n)
+        gs = [canon_guard(g0, f) for g0 in controlling_guards(f, cfg, block)]
+        if use is not None:
+            pf, nm, others, bi = use
+            toks = set()
+            for a in others:
+                toks |= set(leaves(describe(pf, a, depth=30)))
+            if nm in LAZY_COMBINATORS and all(g["kind"] in ("none", "plumbing") for g in gs):
+                return [{"kind": LAZY_COMBINATORS[nm], "tokens": _clean(toks)}]
+            if toks:
+                for g in gs:
+                    g["ctx"] = _clean(toks)
+        if value_local is not None or value_rx is not None:
+            al = forward_aliases(f, [value_local], through_calls=None) if value_local is not None else set()
+            for bi, c, args, dest, tgt, l in calls(f):
+                if callee_matches(c, r"Option::<T>::ok_or$") and len(args) == 2 and bi in cfg.reachable_incl(block):
+                    p = op_place(args[1])
+                    vd = describe(f, args[1], depth=12)
+                    if (p is not None and p[0] in al) or (value_rx is not None and value_rx in vd):
+                        return [{"kind": "none-of", "tokens": _clean(leaves(describe(f, args[0], depth=30)))}]
+        return gs
+
+
+def _ids_ops(g):
+    ids, ops = set(), set()
+    for key in ("a", "b", "tokens", "ctx"):
+        for t in g.get(key, []) or []:
+            (ops if is_op_token(t) else ids).add(t)
+    return ids, ops
+
+
+def _sup(new, old):
+    """token list `new` keeps every token of `old`; operator / constant tokens must be identical."""
+    n_ids = {t for t in new if not is_op_token(t)}
+    o_ids = {t for t in old if not is_op_token(t)}
+    n_ops = {t for t in new if is_op_token(t)}
+    o_ops = {t for t in old if is_op_token(t)}
+    return n_ids >= o_ids and n_ops == o_ops
+
+
+def guard_match(old, new):
+    """'exact' | 'tolerant' | 'shape-changed' | None (no match). Tolerance (a necessary-condition comparison, never an
+    equivalence proof): same kind -> same relation / polarity / matched values, every reviewed identifier token still
+    present, identical constants and arithmetic operators; different kind (the control shape was rewritten: loop <->
+    iterator chain, match <-> ok_or, closure <-> inline) -> every reviewed identifier token still takes part."""
+    if old == new:
+        return "exact"
+    ko, kn = old.get("kind"), new.get("kind")
+    octx = old.get("ctx", [])
+    if ko == kn:
+        if ko == "cmp":
+            for a, b, reg in ((new["a"], new["b"], new["region"]),
+                              (new["b"], new["a"], "".join(sorted(FLIP[x] for x in re.findall(r"lt|eq|gt", new["region"]))))):
+                if reg == old["region"] and _sup(a + new.get("ctx", []), old["a"]) and _sup(b + new.get("ctx", []), old["b"]):
+                    return "tolerant"
+            return None
+        if ko == "bool":
+            return "tolerant" if old["when"] == new["when"] and _sup(new["tokens"] + new.get("ctx", []), old["tokens"] + octx) else None
+        if ko == "disc":
+            return "tolerant" if old["values"] == new["values"] and _sup(new["tokens"] + new.get("ctx", []), old["tokens"] + octx) else None
+        if "tokens" in old:
+            return "tolerant" if _sup(new.get("tokens", []) + new.get("ctx", []), old["tokens"] + octx) else None
+        return None
+    if ko in ("none", "plumbing") or kn in ("none", "plumbing", "closure-unresolved"):
+        return None
+    oi, _ = _ids_ops(old)
+    ni, _ = _ids_ops(new)
+    return "shape-changed" if oi and ni >= oi else None
+
+
+def guards_match(old_list, new_list):
+    """Row comparison: every reviewed descriptor is matched by a current one and every current descriptor matches a
+    reviewed one. Returns (ok, how) with how the weakest match used."""
+    rank = {"exact": 0, "tolerant": 1, "shape-changed": 2}
+    worst = "exact"
+    for o in old_list:
+        ms = [m for m in (guard_match(o, n) for n in new_list) if m]
+        if not ms:
+            return False, "reviewed condition %s has no counterpart" % json.dumps(o, sort_keys=True)
+        best = min(ms, key=rank.get)
+        worst = max(worst, best, key=rank.get)
+    for n in new_list:
+        ms = [m for m in (guard_match(o, n) for o in old_list) if m]
+        if not ms:
+            return False, "current condition %s matches no reviewed condition" % json.dumps(n, sort_keys=True)
+        best = min(ms, key=rank.get)
+        worst = max(worst, best, key=rank.get)
+    return True, worst
